@@ -21,7 +21,7 @@ theorem directivesLoop_E (fl : Flags) (fuel : Nat) (c : Bool) : ∀ n,
     directivesLoop (E fl) fuel c n = directivesLoop fl fuel c n >>= fun ds => pure (ds.map Directive.erase) := by
   intro n
   induction n with
-  | zero => simp only [directivesLoop, fail_bind]
+  | zero => simp only [directivesLoop, fail_bind, failAt_bind, failTokAt_bind]
   | succ n ih => simp only [directivesLoop, ih, parseDirective_E, bind_assoc', pure_bind', ite_bind, List.map]
 
 theorem parseDirectives_E (fl : Flags) (fuel : Nat) (c : Bool) :
@@ -39,7 +39,7 @@ theorem parseVariableDefinitions_E (fl : Flags) (fuel : Nat) :
   simp only [parseVariableDefinitions_eq, parseVariableDefinition_E, optMany_E]
 
 theorem parseFragmentName_E (fl : Flags) : parseFragmentName (E fl) = parseFragmentName fl >>= fun n => pure n.erase := by
-  simp only [parseFragmentName, parseName_E, bind_assoc', ite_bind, fail_bind]
+  simp only [parseFragmentName, parseName_E, bind_assoc', ite_bind, fail_bind, failAt_bind, failTokAt_bind]
 
 /-! ### selections -/
 
@@ -69,7 +69,7 @@ theorem parseSelection_E (fl : Flags) (fuel : Nat) : ∀ n,
     parseSelection (E fl) fuel n = parseSelection fl fuel n >>= fun x => pure x.erase := by
   intro n
   induction n with
-  | zero => simp only [parseSelection, fail_bind]
+  | zero => simp only [parseSelection, fail_bind, failAt_bind, failTokAt_bind]
   | succ n ih =>
     simp only [parseSelection, ih, parseSelectionSetWith_E, parseFieldWith_E, parseFragmentWith_E, bind_assoc',
       ite_bind]
@@ -97,6 +97,6 @@ theorem parseFragmentDefinition_E (fl : Flags) (fuel : Nat) :
 theorem parseExecutableDefinition_E (fl : Flags) (fuel : Nat) :
     parseExecutableDefinition (E fl) fuel = parseExecutableDefinition fl fuel >>= fun x => pure x.erase := by
   simp only [parseExecutableDefinition, parseOperationDefinition_E, parseFragmentDefinition_E, bind_assoc', pure_bind',
-    ite_bind, fail_bind, Definition.erase]
+    ite_bind, fail_bind, failAt_bind, failTokAt_bind, Definition.erase]
 
 end PyGql.Parse
